@@ -580,6 +580,31 @@ func c09gen(c *h.Ctx, yield func(*h.Case)) {
 		emit("stalled-setup-"+tr, ops...)
 	}
 
+	// containment at the service level: a few hundred service handlers of the survivor are stuck (as
+	// in sends towards a peer that went silent) while healthy peers' messages arrive (witness of the
+	// seeded change C09r6-B: a bound on concurrently running processors, the slot taken in Dispatch)
+	emitTo("corpus", "corpus-stuck-handlers", "c09 open tcp 0,1,2", "c09 svcblock 1 120", "c09 svcping 2 1", "c09 svcrelease")
+	for i := 0; i < c.Pick(8, 60); i++ {
+		tr := []string{"tcp", "local", "tls"}[i%3]
+		ops := []string{"c09 open " + tr + " 0,1,2,3", "c09 handler 10"}
+		if r.Intn(2) == 0 {
+			ops = append(ops, "c09 svcping 2 1")
+		}
+		ops = append(ops, fmt.Sprintf("c09 svcblock 1 %d", 60+r.Intn(200)))
+		if r.Intn(2) == 0 {
+			ops = append(ops, fmt.Sprintf("c09 svcblock %d %d", 1+r.Intn(2), 40+r.Intn(120)))
+		}
+		ops = append(ops, fmt.Sprintf("c09 svcping 2 %d", 1+r.Intn(3)), "c09 send sendto 0 1")
+		if r.Intn(2) == 0 {
+			ops = append(ops, "c09 down 3", "c09 send router 3 1", "c09 svcping 1 1")
+		}
+		ops = append(ops, "c09 svcrelease", "c09 svcping 1 1")
+		if r.Intn(3) == 0 {
+			ops = append(ops, "c09 down 1", "c09 conns 1")
+		}
+		emit("stuck-handlers-"+tr, ops...)
+	}
+
 	var all []c09pending
 	for _, q := range order {
 		for i, cs := range queues[q] {
